@@ -210,9 +210,18 @@ pub fn run(args: &Args, rep: &mut Rep) {
     let mode = args.param_s("mode", "mixed");
     let sparse = args.param_u("sparse", 0) == 1;
     if mode == "hist" {
+        let lang = args.param_s("lang", "sym");
         drive(args, rep, move |rng, _| {
             SPARSE.with(|s| s.set(sparse));
-            run_hist_case(rng)
+            match lang.as_str() {
+                "sym" => run_hist_case(rng),
+                "all" => match rng.below(3) {
+                    0 => run_hist_case_lang(rng, "arith"),
+                    1 => run_hist_case_lang(rng, "pay"),
+                    _ => run_hist_case_lang(rng, "nest"),
+                },
+                l => run_hist_case_lang(rng, l),
+            }
         });
     } else {
         drive(args, rep, move |rng, _| run_case(rng, lo, hi));
@@ -227,12 +236,15 @@ thread_local! {
 }
 
 pub fn eval_struct(h: &History, extra_ops: bool) -> CaseOut {
+    eval_struct_lang::<LSym>(&LSYM, h, extra_ops)
+}
+
+pub fn eval_struct_lang<L: Language + 'static>(lang: &'static LangSig, h: &History, extra_ops: bool) -> CaseOut {
     let mut out = CaseOut::default();
     // sparse: invariants (which canonicalise every id, i.e. compress paths) are evaluated only after the last operation
     let sparse = SPARSE.with(|s| s.get());
-    let lang = &LSYM;
     let cj = h.json(lang);
-    let mut eg: EGraph<LSym> = EGraph::default();
+    let mut eg: EGraph<L> = EGraph::default();
     let mut ids: BTreeMap<usize, AppliedId> = BTreeMap::new();
     let text = h.text(lang);
     let mut red = 0;
@@ -242,13 +254,13 @@ pub fn eval_struct(h: &History, extra_ops: bool) -> CaseOut {
     for (step, op) in h.ops.iter().enumerate() {
         let r = guard(|| match op {
             HOp::Add(i) => {
-                let id = eg.add_expr(to_rec::<LSym>(lang, &h.terms[*i]));
+                let id = eg.add_expr(to_rec::<L>(lang, &h.terms[*i]));
                 ids.insert(*i, id);
             }
             HOp::Union(a, b) => {
                 for t in [a, b] {
                     if !ids.contains_key(t) {
-                        let id = eg.add_expr(to_rec::<LSym>(lang, &h.terms[*t]));
+                        let id = eg.add_expr(to_rec::<L>(lang, &h.terms[*t]));
                         ids.insert(*t, id);
                     }
                 }
@@ -307,7 +319,7 @@ pub fn eval_struct(h: &History, extra_ops: bool) -> CaseOut {
         if extra_ops {
             // extraction must not panic either
             let r = guard(|| {
-                let ex = Extractor::<LSym, AstSize>::new(&eg, AstSize);
+                let ex = Extractor::<L, AstSize>::new(&eg, AstSize);
                 for h in &hs {
                     let _ = ex.extract(h, &eg);
                 }
@@ -334,6 +346,47 @@ pub fn eval_struct(h: &History, extra_ops: bool) -> CaseOut {
         out.nontrivial = Some(h.hash(lang));
     }
     out.sample = Some(J::obj(vec![("mode", J::s("declarative-history")), ("history", J::arr_s(&text))]));
+    out
+}
+
+/// other workload languages: plain random terms and unions (the symmetry/redundancy families are specific to LSym's operators)
+pub fn run_hist_case_lang(rng: &mut Rng, which: &str) -> CaseOut {
+    let (lang, ops): (&'static LangSig, Vec<&'static str>) = match which {
+        "arith" => (&LARITH, vec!["#num", "var", "add", "mul", "sum", "let"]),
+        "pay" => (&LPAY, vec!["lam", "app", "var", "two", "cst", "neg", "flag", "idx", "#num", "#sym"]),
+        // (bs / bbs bind over a bare slot; the term model has no field kind for that, they are covered by C16)
+        _ => (&LNEST, vec!["nb", "b2", "mix", "bba", "three", "ch", "big", "tag", "kk", "#num"]),
+    };
+    let ns = rng.range(2, 3);
+    let cfg = GenCfg { lang, ops, ns, max_depth: rng.range(1, 3), max_names: 5, shadow: rng.chance(1, 3) };
+    let n = rng.range(3, 7);
+    let mut terms: Vec<Tm> = (0..n).map(|_| gen_closed_term(rng, &cfg)).collect();
+    // renamed copies make symmetric / redundant situations likely
+    for _ in 0..rng.range(0, 2) {
+        let t = terms[rng.below(terms.len())].canon();
+        let fv: Vec<Name> = t.fv().into_iter().collect();
+        let mut img = fv.clone();
+        rng.shuffle(&mut img);
+        terms.push(t.rename(&fv.iter().copied().zip(img).collect()));
+    }
+    let mut ops_h: Vec<HOp> = (0..terms.len()).map(HOp::Add).collect();
+    for _ in 0..rng.range(1, 5) {
+        ops_h.push(HOp::Union(rng.below(terms.len()), rng.below(terms.len())));
+    }
+    let h = History { terms, ops: ops_h, ns, families: vec![] };
+    let run = |h: &History| match which {
+        "arith" => eval_struct_lang::<LArith>(lang, h, true),
+        "pay" => eval_struct_lang::<LPay>(lang, h, true),
+        _ => eval_struct_lang::<LNest>(lang, h, true),
+    };
+    let mut out = run(&h);
+    if let Some(f) = out.fails.first().cloned() {
+        let small = shrink_history(&h, &|h2: &History| run(h2).fails.iter().any(|g| g.kind == f.kind && g.sig == f.sig));
+        if let Some(g) = run(&small).fails.into_iter().find(|g| g.kind == f.kind && g.sig == f.sig) {
+            out.fails = vec![g];
+        }
+    }
+    out.inc(match which { "arith" => "histories_arith", "pay" => "histories_pay", _ => "histories_nest" });
     out
 }
 
